@@ -144,6 +144,40 @@ pub fn run(ctx: &Ctx) -> Report {
         st
     });
     total.exhaustive_parts.push(format!("all {n} trees with <= {max} nodes over {{true, false, -name a, -print, -quit, -fprint f}} x {{!, and, or, ','}}, each built directly and every third also through its text"));
+    // long chains: the only action first, last, or in the middle of up to 300 operands
+    let mut st = Stats::new();
+    for n in [2usize, 10, 30, 47, 48, 49, 50, 64, 100, 128, 129, 200, 300] {
+        for (pos, action) in [(0usize, Act::Print), (n / 2, Act::FPrint("f".into())), (n - 1, Act::Quit), (0, Act::Quit)] {
+            for op in 0..3 {
+                let mut e: Option<E> = None;
+                for i in 0..n {
+                    let leaf = if i == pos { E::A(action.clone()) } else if i % 5 == 4 { E::T(Tst::Name("a".into())) } else { E::T(Tst::True) };
+                    e = Some(match e.take() {
+                        None => leaf,
+                        Some(acc) => match op {
+                            0 => E::and(acc, leaf),
+                            1 => E::or(acc, leaf),
+                            _ => E::list(acc, leaf),
+                        },
+                    });
+                }
+                let t = e.unwrap();
+                let v = judge(&t, n <= 129);
+                st.record(&v, stable_hash(&t), true, || json!({"kind": "chain", "operands": n, "action_at": pos, "operator": (["and", "or", ","][op]), "tree": term::encode_expr(&t)}));
+            }
+        }
+    }
+    // nested negations/groups above a single action
+    for n in [1usize, 10, 47, 48, 49, 50, 100] {
+        let mut t = E::A(Act::Quit);
+        for _ in 0..n {
+            t = E::not(t);
+        }
+        let v = judge(&t, false);
+        st.record(&v, stable_hash(&t), true, || json!({"kind": "tree", "negations": n, "tree": term::encode_expr(&t)}));
+    }
+    total.merge(st);
+    total.exhaustive_parts.push("chains of 2..300 operands (and / or / ',') with the only action first, in the middle or last; 1..100 nested negations above an action".into());
     let cases = ctx.tier.pick(60_000u32, 600_000u32);
     let rnd = run_shards(16, |shard| {
         let mut st = Stats::new();
